@@ -13,7 +13,7 @@ cleanup() { git -C /repo worktree remove --force $w/repo 2>/dev/null; rm -rf $w;
 trap cleanup EXIT
 if ! git -C $w/repo apply --check "$patch" 2>/dev/null; then echo "patch does not apply"; exit 2; fi
 git -C $w/repo apply "$patch"
-rsync -a --exclude replays --exclude evidence --exclude seeded /verif/ $w/verif/
+rsync -a --exclude replays --exclude evidence --exclude seeded --exclude ".cache/k3-*" --exclude ".cache/k6tmp" /verif/ $w/verif/ 2>/dev/null
 mkdir -p $w/verif/replays $w/verif/evidence
 cd $w/verif
 for id in "$@"; do
